@@ -85,7 +85,7 @@ Record dunion := mkDU {
 }.
 
 Inductive erow :=
-| ENone                                          (* the type is not emitted in this builder configuration *)
+| ENone                                          (* no row (the default of a table lookup) *)
 | EStruct (name : string) (enc : list efield) (enc_unk : bool) (size : list efield) (size_unk : bool) (dec : dstruct)
 | EUnion (name : string) (enc : list efield) (enc_unk : bool) (size : list efield) (size_unk : bool) (dec : dunion)
 | EEnum (name : string)                          (* write_i32(self.inner()) ; i32_len(self.inner()) ; read_i32 + TryFrom *)
@@ -296,15 +296,6 @@ Section Presc.
   Definition presc_tbl : list erow := map presc_row S.
 End Presc.
 
-(* a configuration emits a subset of the schema's types: rows that are absent are not compared *)
-Fixpoint mask (emitted prescribed : list erow) : list erow :=
-  match emitted, prescribed with
-  | ENone :: re, _ :: rp => ENone :: mask re rp
-  | _ :: re, x :: rp => x :: mask re rp
-  | _, _ => prescribed
-  end.
-
+(* S: schema.txt restricted to the types the configuration emits (a configuration emits a subset of the corpus) *)
 Definition ops_match (S : schema) (cfg_keep : bool) (emitted : list erow) : Prop :=
-  map norm_row emitted = mask emitted (presc_tbl S cfg_keep) /\ forallb names_ok emitted = true.
-
-Definition present (emitted : list erow) : nat := length (filter (fun r => match r with ENone => false | _ => true end) emitted).
+  map norm_row emitted = presc_tbl S cfg_keep /\ forallb names_ok emitted = true.
